@@ -1,6 +1,8 @@
 \* mode M: both protocols, keep-alive on/off, the protocols as written (no deviation switched on).
 \* The five clauses of C25 (and P0) are invariants of the monitor state carried by the model.
-\* checks/C25.py derives the quick-tier bounds and the deviation demonstrations from this file.
+\* This is the thorough-tier configuration; checks/C25.py writes the quick-tier variant (<= 4 client messages,
+\* keep-alive configured, which subsumes not configured) and the deviation demonstrations (Dev = {one switch},
+\* expected counterexample to P4_ViolationCodes) into work/C25/.
 CONSTANT Protos = {"GWS", "STWS"}
 CONSTANT KeepAlives = {TRUE, FALSE}
 CONSTANT Ids = {"a", "b"}
